@@ -62,6 +62,10 @@ func (e EventJSONs) UntrustedEvents(roomVersion RoomVersion) []PDU {
 		default:
 			continue
 		}
+		if event == nil {
+			// a persistable validation error raised before the event was built
+			continue
+		}
 		events = append(events, event)
 	}
 	return events
